@@ -293,8 +293,8 @@ func runCheck(p property, tier string, seed int64, workers int) int {
 				done := make(chan error, 1)
 				go func() { done <- cmd.Wait() }()
 				// wall-clock back-stop: no progress for a long time. One C08 case is hundreds of simulations plus two
-				// child processes, which on a loaded machine can take longer than 300 s without being stuck.
-				watchdog := 300 * time.Second
+				// child processes, which on a loaded machine can take longer than the default without being stuck.
+				watchdog := 900 * time.Second
 				if id == "C08" {
 					watchdog = 1800 * time.Second
 				}
